@@ -284,7 +284,14 @@ func (r *PaginatedResourceRepository[ResourceType, OptionsType]) Paginate(
 
 	switch v := any(paginationQuery).(type) {
 	case OffsetPaginatedQuery[OptionsType]:
+		// The query comes from a cursor, which is client provided
+		if err := r.validateCursorQuery(v.InitialPaginatedQuery, false); err != nil {
+			return nil, err
+		}
 	case ColumnPaginatedQuery[OptionsType]:
+		if err := r.validateCursorQuery(v.InitialPaginatedQuery, true); err != nil {
+			return nil, err
+		}
 	case InitialPaginatedQuery[OptionsType]:
 
 		if v.Column == "" {
@@ -299,7 +306,7 @@ func (r *PaginatedResourceRepository[ResourceType, OptionsType]) Paginate(
 
 		_, field := r.resourceHandler.Schema().GetFieldByNameOrAlias(v.Column)
 		if field == nil {
-			return nil, fmt.Errorf("invalid property '%s' for pagination", v.Column)
+			return nil, NewErrInvalidQuery("invalid property '%s' for pagination", v.Column)
 		}
 
 		if !field.IsPaginated {
@@ -336,7 +343,7 @@ func (r *PaginatedResourceRepository[ResourceType, OptionsType]) Paginate(
 	case ColumnPaginatedQuery[OptionsType]:
 		fieldName, field := r.resourceHandler.Schema().GetFieldByNameOrAlias(v.Column)
 		if field == nil {
-			return nil, fmt.Errorf("invalid property '%s' for pagination", v.Column)
+			return nil, NewErrInvalidQuery("invalid property '%s' for pagination", v.Column)
 		}
 		paginator = newColumnPaginator[ResourceType, OptionsType](v, fieldName, field.Type)
 		resourceQuery = v.Options
@@ -372,6 +379,29 @@ func (r *PaginatedResourceRepository[ResourceType, OptionsType]) Paginate(
 	}
 
 	return paginator.BuildCursor(ret)
+}
+
+// validateCursorQuery checks the part of a query decoded from a cursor the paginators rely on:
+// the pagination column must be a paginated property of the resource, usable by the kind
+// of paginator the cursor selects, and the order must be defined.
+func (r *PaginatedResourceRepository[ResourceType, OptionsType]) validateCursorQuery(
+	v InitialPaginatedQuery[OptionsType],
+	columnPaginated bool,
+) error {
+	if v.Order == nil || (*v.Order != paginate.OrderAsc && *v.Order != paginate.OrderDesc) {
+		return NewErrInvalidQuery("invalid order for pagination")
+	}
+	_, field := r.resourceHandler.Schema().GetFieldByNameOrAlias(v.Column)
+	if field == nil {
+		return NewErrInvalidQuery("invalid property '%s' for pagination", v.Column)
+	}
+	if !field.IsPaginated {
+		return newErrNotPaginatedField(v.Column)
+	}
+	if columnPaginated && !field.Type.IsPaginated() {
+		return NewErrInvalidQuery("property '%s' cannot be used with a column cursor", v.Column)
+	}
+	return nil
 }
 
 func NewPaginatedResourceRepository[ResourceType, OptionsType any](
